@@ -343,3 +343,42 @@ class Check(object):
                   % (self.prop, self.tier, self.discharged, self.obligations, self.evaluations,
                      len(self.distinct), wall))
         return rc
+
+
+# ------------------------------------------------------------------ C side
+
+CLIBS = ['/usr/lib/x86_64-linux-gnu/libgio-2.0.so.0', '/usr/lib/x86_64-linux-gnu/libgobject-2.0.so.0',
+         '/usr/lib/x86_64-linux-gnu/libgmodule-2.0.so.0', '/usr/lib/x86_64-linux-gnu/libglib-2.0.so.0',
+         '-lffi', '-lm', '-ldl']
+CBUILD = os.path.join(BUILD, 'c')
+
+
+def c_build():
+    """(Re)build g-ir-compiler, g-ir-generate and the girepository objects from /repo."""
+    with Lock('cbuild'):
+        rc, out = run(['bash', os.path.join(ROOT, 'cshim', 'build.sh')], timeout=900)
+    return rc == 0, out
+
+
+def c_driver(name, src, exclude=(), with_parser=False, extra_flags=()):
+    """Compile a driver (which may #include .c files of /repo to reach static functions)
+    and link it against the freshly built objects, leaving out the objects it re-includes."""
+    objdir = os.path.join(CBUILD, 'obj')
+    objs = []
+    for f in sorted(os.listdir(objdir)):
+        if not f.endswith('.o'):
+            continue
+        base = f[:-2]
+        if base.startswith('tool_') or base in exclude:
+            continue
+        if base == 'girparser' and not with_parser:
+            continue
+        objs.append(os.path.join(objdir, f))
+    exe = os.path.join(CBUILD, name)
+    cmd = (['gcc', '-O1', '-g', '-w', '-DHAVE_CONFIG_H', '-DGI_COMPILATION', '-DG_IREPOSITORY_COMPILATION',
+            '-DG_LOG_DOMAIN="GLib-GIRepository"',
+            '-I' + os.path.join(ROOT, 'cshim', 'inc'), '-I' + REPO, '-I' + os.path.join(REPO, 'girepository'),
+            '-I' + os.path.join(REPO, 'girepository', 'cmph')] + list(extra_flags) + ['-o', exe, src] + objs + CLIBS)
+    with Lock('cbuild'):
+        rc, out = run(cmd, timeout=300)
+    return (exe if rc == 0 else None), out
